@@ -9,11 +9,18 @@
 
 struct Ambient {
     int round = 0;
+    unsigned fpcw = 0;       // control bits of MXCSR (exception masks, rounding, FTZ, DAZ) << 16 | x87 control word
+    unsigned long sig = 0;   // hash of the thread's signal mask and of the dispositions of the common signals
     std::string locale;
-    bool operator==(const Ambient &o) const { return round == o.round && locale == o.locale; }
+    bool operator==(const Ambient &o) const {
+        return round == o.round && fpcw == o.fpcw && sig == o.sig && locale == o.locale;
+    }
     std::string describe() const;
 };
+// puts the calling thread's floating-point control state and signal mask/dispositions back to a
+void ambientRestoreThread(const Ambient &a);
 void ambientInit();
+void ambientFixDefault();  // after the simulator installed its signal handlers: this is the reference state
 Ambient ambientGet(bool withLocale);
 Ambient ambientDefault();
 void ambientRestore(bool withLocale);
